@@ -194,6 +194,16 @@ func (r *readers) scratchFile(content []byte) *os.File {
 	return f
 }
 
+// reopen opens another handle on a scratch file made earlier.
+func (r *readers) reopen(p string) *os.File {
+	f, err := os.Open(p)
+	if err != nil {
+		return nil
+	}
+	r.files = append(r.files, f)
+	return f
+}
+
 // get returns the reader of kind k (nil if a scratch file cannot be made).
 func (r *readers) get(k int) io.ReadSeeker {
 	if r.made[k] != nil {
